@@ -50,6 +50,8 @@ def find_visitors(ctx):
 
 def run(ctx, rep):
     ix, T = ctx.ix, ctx.typer
+    from .common import check_alias_name_kept
+    check_alias_name_kept(ctx, rep, "C04.9", ("jaqalpaq.core.algorithm.expand_macros",))
     from .common import check_macro_argument_binding
     check_macro_argument_binding(ctx, rep, "C04.8")
     from .common import check_fast_paths
@@ -222,19 +224,8 @@ def run(ctx, rep):
         if f"{cls_construct(ix, replacer)}:{kname}.{member}" in c041_violated:
             rep.info("C04.5", cons, "field is not read at all (reported under C04.1)")
             continue
-        visited = False
-        hier = set(ix.mro(cls)) | set(ix.subclasses(cls))
-        for f in tr_r.funcs:
-            fl = tr_r.flows[f.qualname]
-            for cs in T.callsites(f):
-                if cs.kind != "visit" or not isinstance(cs.node, ast.Call) or not cs.node.args:
-                    continue
-                ids, _ = fl.depends(cs.node.args[0])
-                for m in walk_no_nested(f.node):
-                    if id(m) in ids and isinstance(m, ast.Attribute) and m.attr == member:
-                        rt = {t for t in T.types_of(m.value) if t in ix.classes}
-                        if rt & hier or not rt:
-                            visited = True
+        from .common import position_visited
+        visited = position_visited(ctx, tr_r, cls, member) is not None
         handler = tr_r.has_handler(replacer, cls)
         if visited:
             rep.ok("C04.5", cons, "passed to self.visit")
